@@ -1584,6 +1584,10 @@ class Interp:
                 v.pyvc_havoc(n, st, self)
             elif isinstance(v, (list, dict)):
                 raise Unsupported(f"loop mutates concrete container {n}")
+            elif hasattr(v, "pyvc_havoc"):
+                st.env[n] = v.pyvc_havoc(n, st, self)  # a model object whose attributes / items the body stores into
+            elif not (isinstance(v, (bool, int, float, str, SStr, Opaque, tuple)) or z3.is_expr(v)):
+                raise Unsupported(f"loop mutates object {n} ({type(v).__name__}) that has no havoc rule")
 
     def _havoc_val(self, v, n, st):
         if isinstance(v, bool):
